@@ -7,6 +7,8 @@ instantiations of the primitives `P`.  The proofs unfold the generated definitio
 import TonVerif.Generated.AdnlSrc
 import TonVerif.Proofs.Adnl
 
+set_option linter.unusedSimpArgs false
+
 namespace TonVerif.Proofs.SrcAdnl
 open TonVerif TonVerif.Model.Adnl TonVerif.Proofs.Adnl TonVerif.Generated.AdnlSrc
 
@@ -46,7 +48,12 @@ theorem get_shared_key_eq {W} (P : Prims W) (a b : Bytes) : get_shared_key P a b
 theorem AdnlChannel_init_eq {W} (P : Prims W) (c : Client) (s : Server) (l p : Bytes) :
     AdnlChannel_init P c s l p = some (Channel.new P c s l p) := by
   simp only [AdnlChannel_init, Channel.new, get_shared_key_eq, get_key_aes_id_eq, py_bytesLt_eq]
-  cases bytesLt p l <;> cases bytesLt l p <;> simp
+  -- the three orderings; "both smaller" is impossible (so the order in which the source tests `>` and `<` does not matter)
+  cases h1 : bytesLt p l <;> cases h2 : bytesLt l p
+  · simp
+  · simp
+  · simp
+  · rw [bytesLt_asymm p l h1] at h2; cases h2
 
 theorem cipher_eq {W} (P : Prims W) (key data : Bytes) :
     create_aes_ctr_sipher_from_key_n_data P key data = cipherParams key data := by
